@@ -52,13 +52,15 @@ func (c *counter) snapshot() map[string]int64 {
 	return r
 }
 
-func replayWorkers(env *common.Env) int {
+// Five TLC runs and their replays go on concurrently; each gets a share of the cores (share = 1/div).
+func share(env *common.Env, div, min int) int {
 	w := env.Workers
 	if w > runtime.NumCPU() {
 		w = runtime.NumCPU()
 	}
-	if w < 1 {
-		w = 1
+	w /= div
+	if w < min {
+		w = min
 	}
 	return w
 }
@@ -76,12 +78,19 @@ func main() {
 		replayOne(env)
 		return
 	}
-	g := runGen(env, rep)
-	it := runIter(env, rep)
+	var g *genStats
+	var it *iterStats
+	var both sync.WaitGroup
+	both.Add(2)
+	go func() { defer both.Done(); g = runGen(env, rep) }()
+	go func() { defer both.Done(); it = runIter(env, rep) }()
+	both.Wait()
 	rep.Evaluations = g.calls + it.cases
 	rep.Distinct = g.distinctNontrivial + it.cases
 	rep.Traces = g.behaviours + it.cases
-	rep.Exhaustive = !env.Thorough() // the thorough tier adds a sampled (simulated) part
+	rep.Exhaustive = false // the exhaustive parts are named below; the 3-instance histories are a seeded sample
+	rep.Extra["exhaustive_parts"] = []string{"gen_lock.cfg", "gen_micro.cfg", "gen_quick.cfg / gen_thorough.cfg (all template pairs x all histories of the tier's length)", "iter_quick.cfg / iter_thorough.cfg (full consumer x producer x items x ending product)"}
+	rep.Extra["sampled_parts"] = []string{"gen_sim3.cfg (TLC -simulate, seed = VERIF_SEED)"}
 	rep.Extra["gen_behaviours"] = g.behaviours
 	rep.Extra["gen_behaviours_distinct"] = g.distinct
 	rep.Extra["gen_calls_compared"] = g.calls
